@@ -210,8 +210,8 @@ func (tr *Tr) evalIdent(env *CEnv, name string) (Value, types.Type) {
 		if name == "iter" && env.loop != nil && env.loop.enum != nil {
 			return env.st.vars[env.loop.enum.counter], nil
 		}
-		if name == "iter" {
-			// range-over-slice loop: the hidden index phi holds the index of the last completed iteration (-1 initially)
+		if name == "iter" || name == "slice_iter" {
+			// range-over-slice loop (slice_iter: also usable inside a nested range-over-map loop): the hidden index phi holds the index of the last completed iteration (-1 initially)
 			if d, ok := env.fr.lookupName("rangeindex", env.at); ok {
 				saved := env.fr.over
 				env.fr.over = env.over
